@@ -618,12 +618,12 @@ def _consistent(c):
 def oracle(c):
     out = []
     try:
+        if not _consistent(c):
+            return []  # lines no longer describe one value / one byte string (shrinker artefact)
         for o in c.impl:
             if o is None or o == "panic" or o == "bad-op" or str(o).startswith("fault("):
                 out.append(("no-panic", {"impl": [_short(x) for x in c.impl]}))
                 return out
-        if not _consistent(c):
-            return []  # lines no longer describe one value / one byte string (shrinker artefact)
         if c.meta.get("k") == "val":
             _oracle_value(c, out)
         elif c.meta.get("k") == "bytes":
